@@ -160,9 +160,18 @@ HARNESSES += [
 ]
 
 PROPERTY_INFO = {'C12': {'level': 'model_checking',
-         'explanation': 'bounded symbolic execution (CBMC) of the real serialisation code over a token-stream model of iostreams',
-         'outside': 'real decimal text (the stream model asserts delimitation of integers instead); files larger than the bounds; std::ifstream '
-                    'itself',
-         'assumptions': ['iostream model models/stream.c: integers are whole tokens, characters are byte tokens']}}
+         'explanation': 'bounded symbolic execution (CBMC) of the real serialisation code over a token-stream model of iostreams: '
+                        'string and vector primitives, output()/input() of every record type, the InterrogateElement version gates '
+                        'against a reference writer kept in the harness, prefixes of a valid record, and the load_latest header logic',
+         'outside': 'real decimal text (the stream model keeps integers as whole tokens and asserts that they are delimited; a cut '
+                    'inside a number is therefore not explored); whole databases through InterrogateDatabase::write/read_new (file framing, section counts, the record '
+                    'copies made by add_type/add_wrapper; a one-function one-type harness did not finish in 600 s and was dropped); files larger than the bounds; string lengths above LMAX and combinations of string '
+                    'lengths other than the listed patterns at record level (the string primitive itself is checked for every length '
+                    '0..LMAX with symbolic length); InterrogateType::_flags other than two fixed bit patterns; std::ifstream and the file '
+                    'system (Filename::open_read is a stand-in in c12_header); the query interface on top of the loaded database',
+         'assumptions': ['iostream model models/stream.c: integers are whole tokens, characters are byte tokens; operator>> leaves its '
+                         'target untouched when the sentry fails, as libstdc++ does',
+                         'uninitialised locals hold arbitrary values (CBMC semantics); the native replay of c12_truncate_head paints the '
+                         'stack to make that deterministic']}}
 
 NOT_APPLICABLE = {}
